@@ -129,11 +129,51 @@ def run_case(item):
     if kind == "expec":
         out = prop.expec_block_contribution(order, f"{sp1},{sp2}", nc, subtract_gs)
         res["api"] = f"{pre}.expec_block_contribution({order}, '{sp1},{sp2}', {nc}, {subtract_gs})"
+    elif kind == "tm_default":
+        # operator string left to its documented default (creators / annihilators of the
+        # variant's lowest space); the reference uses that default explicitly
+        out = prop.trans_moment_space(order, sp1, None, None, "left", subtract_gs)
+        res["api"] = f"{pre}.trans_moment_space({order}, '{sp1}', lr_isr='left', subtract_gs={subtract_gs}) [default operator string]"
+    elif kind in ("sum_expec", "sum_tm"):
+        pass
     else:
         lr = "left" if kind == "tm_left" else "right"
         out = prop.trans_moment_space(order, sp1, nc, na, lr, subtract_gs)
         res["api"] = f"{pre}.trans_moment_space({order}, '{sp1}', {nc}, {na}, '{lr}', {subtract_gs})"
-    A = PRef(kind, lvar, rvar, singles, order, sp1, sp2, nc, na, subtract_gs)
+    if kind in ("sum_expec", "sum_tm"):
+        # functions that only sum block / space contributions: compared with the sum, over the
+        # harness' own ADC(n) truncation table (class mu, nu present if <= n // 2, block
+        # (mu, nu) through order n - (mu + nu), space mu through n - mu), of the individually
+        # verified contributions
+        n_adc, o = sp2, order
+        SPL = {"pp": ["ph", "pphh"], "ip": ["h", "phh"], "ea": ["p", "pph"], "dip": ["hh", "phhh"],
+               "dea": ["pp", "ppph"]}
+        A = S.Zero
+        if kind == "sum_expec":
+            out = prop.expectation_value(n_adc, nc, o, subtract_gs)
+            res["api"] = f"{pre}.expectation_value({n_adc}, {nc}, order={o}, subtract_gs={subtract_gs}) vs the sum of its blocks"
+            for mu, sl in enumerate(SPL[lvar]):
+                for nu, sr in enumerate(SPL[rvar]):
+                    if mu > n_adc // 2 or nu > n_adc // 2 or o > n_adc - (mu + nu):
+                        continue
+                    A += prop.expec_block_contribution(o, f"{sl},{sr}", nc, subtract_gs)
+        else:
+            out = prop.trans_moment(n_adc, nc, na, o, "left", subtract_gs)
+            res["api"] = f"{pre}.trans_moment({n_adc}, {nc}, {na}, order={o}, 'left', {subtract_gs}) vs the sum of its spaces"
+            for mu, sl in enumerate(SPL[lvar]):
+                if mu > n_adc // 2 or o > n_adc - mu:
+                    continue
+                A += prop.trans_moment_space(o, sl, nc, na, "left", subtract_gs)
+        A = sympify(A).expand()
+        out = sympify(out).expand()
+        res["out"] = str(out)[:300]
+        res["n_terms"] = len(out.args) if out.is_Add else (0 if out is S.Zero else 1)
+        oc = compare(A, out, [], model, timeout_ms=TIMEOUT, seed=seed())
+        res.update(oc.as_dict())
+        res["witness"] = oc.witness
+        return res
+    A = PRef("tm_left" if kind == "tm_default" else kind, lvar, rvar, singles, order, sp1, sp2, nc, na,
+             subtract_gs)
     out = sympify(out).expand()
     res["out"] = str(out)[:300]
     res["n_terms"] = len(out.args) if out.is_Add else (0 if out is S.Zero else 1)
@@ -193,6 +233,10 @@ def main():
                 items.append(("tm_left", v, v, False, n, s1, "", nc, na, True, model_for(s1)))
                 if v == "pp":
                     items.append(("tm_left", v, v, False, n, s1, "", nc, na, False, model_for(s1)))
+        # the default operator string (n_create = n_annihilate = None)
+        items.append(("tm_default", v, v, False, 1, lo, "", nc, na, True, model_for(lo)))
+        for n in (0, 1) if quick else (0, 1, 2):
+            items.append(("tm_default", v, v, False, n, hi, "", nc, na, True, model_for(hi)))
         # a non-default operator string
         if v == "pp":
             items.append(("tm_left", v, v, False, 1, lo, "", 2, 2, True, model_for(lo)))
@@ -209,15 +253,23 @@ def main():
         nc, na = DEF[rv]
         items.append(("tm_right", lv, rv, False, 1, lo_r, "", nc, na, True, model_for(lo_r)))
         items.append(("tm_right", lv, rv, False, 2, lo_r, "", nc, na, True, model_for(lo_r)))
+    # summing functions: (kind, left, right, singles, order, -, adc_order, n_c, n_a, subtract_gs, model)
+    for v in variants:
+        nc, na = DEF[v]
+        for n_adc, o in ((2, 0), (2, 1), (1, 1)) + (() if quick else ((2, 2), (3, 1))):
+            items.append(("sum_expec", v, v, False, o, "", n_adc, 1, 1, True, (2, 2)))
+            items.append(("sum_tm", v, v, False, o, "", n_adc, nc, na, True, (2, 2)))
+    items.append(("sum_expec", "ip", "pp", False, 0, "", 2, 1, 1, True, (2, 2)))
+    items.append(("sum_expec", "ip", "pp", False, 1, "", 2, 1, 1, True, (2, 2)))
     if not quick:
         extra = []
         for it in items:
-            if it[4] <= 1 and it[0] == "expec" and it[1] == it[2]:
+            if it[4] <= 1 and it[0] == "expec" and it[1] == it[2]:  # noqa
                 extra.append(it[:3] + (True,) + it[4:])
-            if it[-1] == (2, 2) and it[4] <= 2 and len(it[5]) + len(it[6]) <= 4:
+            if it[-1] == (2, 2) and it[4] <= 2 and isinstance(it[6], str) and len(it[5]) + len(it[6]) <= 4:
                 extra.append(it[:-1] + ((3, 3),))
         items += extra
-    items.sort(key=lambda it: -(it[4] * 10 + len(it[5]) + len(it[6])))
+    items.sort(key=lambda it: -(it[4] * 10 + len(it[5]) + (len(it[6]) if isinstance(it[6], str) else 8)))
     results = pmap(run_case, items, limit=1500 if quick else 14000, workers=15)
     guards = [0, 0]
     for r in results:
